@@ -69,10 +69,17 @@ def seeds():
     bad = 0
     for name in sorted(os.listdir(sd)):
         meta = json.load(open(os.path.join(sd, name, "meta.json")))
+        if meta.get("live_at_head") is False:
+            print("skipped (behaviour-preserving at HEAD) " + name)
+            continue
         p = subprocess.run([os.path.join(z.VERIF, "lib", "run_seed.sh"), name, meta.get("caught_by", meta["property"]), "quick"], stdout=subprocess.PIPE, stderr=subprocess.STDOUT)
         line = p.stdout.decode().splitlines()[0] if p.stdout else ""
-        print(("caught " if p.returncode == 1 else "MISSED ") + line)
-        bad += p.returncode != 1
+        if meta.get("expect") == "drift":
+            good = ", 0 drift" not in line and p.returncode in (0, 1)
+        else:
+            good = p.returncode == 1
+        print(("caught " if good else "MISSED ") + line)
+        bad += not good
     print("SELFTEST seeds:", "ok" if bad == 0 else f"{bad} missed")
     return 0 if bad == 0 else 1
 
